@@ -286,6 +286,10 @@ def _rich():
     prods += [G.Attr(cd, "items"), C(G.Attr(cd, "items")), G.Attr(cd, "keys"), C(G.Attr(cd, "keys")), C(G.Attr(dv, "values")),
               C(G.Attr(dv, "get"), (S("get"),)), G.Item(cd, S("items")), F(cd, "attr", (S("items"),)),
               C(G.Attr(L(I(1), S("<b>")), "index"), (S("<b>"),))]
+    # containers holding inf / nan produced by constant arithmetic (their repr spells `inf`/`nan` as bare names)
+    big = G.Bin("*", G.Float(1e308), I(10))
+    prods += [F(L(big), "list"), F(L(I(1), G.Bin("-", big, big)), "list"), F(D((S("a"), big)), "dictsort"),
+              F(G.Tuple(big, I(1)), "first")]
     cons = [
         ("id", lambda e: e), (".grouper", lambda e: G.Attr(e, "grouper")), (".list", lambda e: G.Attr(e, "list")),
         ("[0]", lambda e: G.Item(e, I(0))), ("[1]", lambda e: G.Item(e, I(1))), (".0", lambda e: G.IItem(e, 0)),
